@@ -1972,11 +1972,10 @@ class CanMatrix(object):
         defines_to_delete = set()
         for signal_define in self.signal_defines:
             for frame in self.frames:
-                for signal in frame.signals:
-                    if signal_define in signal.attributes:
-                        break
-                else:
-                    defines_to_delete.add(signal_define)
+                if any(signal_define in signal.attributes for signal in frame.signals):
+                    break
+            else:
+                defines_to_delete.add(signal_define)
         for element in defines_to_delete:
             del self.signal_defines[element]
 
